@@ -240,18 +240,173 @@ theorem escape_lit (lookup : List Nat → Option Nat) (hl : LookupOk lookup) (ki
       rw [e1, ulen_append]; show utf8Len pre + utf8Len cs' - utf8Len cs' = utf8Len pre; omega
     rw [this, e2]
 
+/-! ### merging: `merge_constants` / `parse_strings` against the reference merge -/
+
+theorem mergeConstants_eq : ∀ (ps : List Piece) (acc : List Nat), mergeConstants acc ps = Spec.mergeGo acc ps := by
+  intro ps
+  induction ps with
+  | nil => intro acc; rfl
+  | cons p ps ih =>
+    intro acc
+    cases p with
+    | lit s => simp only [mergeConstants, Spec.mergeGo]; exact ih _
+    | field t o c sp => simp only [mergeConstants, Spec.mergeGo, ih]
+
+def EndsOk (values : List Piece) : Prop :=
+  values = [] ∨ ∃ vs t o c sp, values = vs ++ [Piece.field t o c sp]
+
+theorem mergeGo_split : ∀ (xs : List Piece) (acc : List Nat) (t : List Nat) (o : Nat) (c : Conv)
+    (sp : Option (List Piece)) (ys : List Piece),
+    Spec.mergeGo acc (xs ++ Piece.field t o c sp :: ys) =
+      Spec.mergeGo acc (xs ++ [Piece.field t o c sp]) ++ Spec.mergeGo [] ys := by
+  intro xs
+  induction xs with
+  | nil => intro acc t o c sp ys; simp [Spec.mergeGo]
+  | cons x xs ih =>
+    intro acc t o c sp ys
+    cases x with
+    | lit s => simp only [List.cons_append, Spec.mergeGo]; exact ih _ _ _ _ _ _
+    | field t' o' c' sp' =>
+      simp only [List.cons_append, Spec.mergeGo]
+      rw [ih]; simp
+
+theorem merge_append (values L : List Piece) (h : EndsOk values) :
+    Spec.merge (values ++ L) = Spec.merge values ++ Spec.merge L := by
+  rcases h with rfl | ⟨vs, t, o, c, sp, rfl⟩
+  · simp [Spec.merge, Spec.mergeGo]
+  · unfold Spec.merge
+    rw [List.append_assoc, List.singleton_append, mergeGo_split]
+
+theorem merge_flush (values : List Piece) (content : List Nat) (h : EndsOk values) :
+    Spec.merge (Spec.Acc.flush ⟨values, content⟩) = Spec.Acc.flush ⟨Spec.merge values, content⟩ := by
+  unfold Spec.Acc.flush
+  by_cases hc : content.isEmpty = true
+  · simp [hc]
+  · simp only [hc, Bool.false_eq_true, if_false]
+    rw [merge_append _ _ h]
+    have : content ≠ [] := by intro e; subst e; simp at hc
+    simp [Spec.merge, Spec.mergeGo, this]
+
+/-- `a` put in front of a merged piece list -/
+def prependLit (a : List Nat) : List Piece → List Piece
+  | .lit e :: T => .lit (a ++ e) :: T
+  | T => if a.isEmpty then T else .lit a :: T
+
+theorem prependLit_prependLit (a s : List Nat) (X : List Piece) :
+    prependLit a (prependLit s X) = prependLit (a ++ s) X := by
+  cases X with
+  | nil =>
+    by_cases hs : s = []
+    · subst hs; simp [prependLit]
+    · simp [prependLit, hs]
+  | cons x T =>
+    cases x with
+    | lit e => simp [prependLit]
+    | field t o c sp =>
+      by_cases hs : s = []
+      · subst hs; simp [prependLit]
+      · simp [prependLit, hs]
+
+theorem mergeGo_prepend : ∀ (qs : List Piece) (a : List Nat),
+    Spec.mergeGo a qs = prependLit a (Spec.mergeGo [] qs) := by
+  intro qs
+  induction qs with
+  | nil => intro a; simp [Spec.mergeGo, prependLit]
+  | cons q qs ih =>
+    intro a
+    cases q with
+    | lit s =>
+      simp only [Spec.mergeGo, List.nil_append]
+      rw [ih (a ++ s), ih s, prependLit_prependLit]
+    | field t o c sp =>
+      simp only [Spec.mergeGo, List.isEmpty_nil, if_true, List.nil_append]
+      by_cases ha : a = []
+      · subst ha; simp [prependLit]
+      · simp [prependLit, ha]
+
+/-- the pieces `parse_spec` returns when the nested `parse_fstring` gave `qs` after the literal
+    text `l`: merged, they are the reference pieces (`e` = the echo text of the first field) -/
+theorem merge_lit_prefix (l e : List Nat) (qs : List Piece) (t : List Nat) (o : Nat) (c : Conv)
+    (sp : Option (List Piece)) (T : List Piece)
+    (h : Spec.merge qs = Spec.Acc.flush ⟨[], e⟩ ++ Piece.field t o c sp :: T) :
+    Spec.merge (Spec.Acc.flush ⟨[], l⟩ ++ qs) = Spec.Acc.flush ⟨[], l ++ e⟩ ++ Piece.field t o c sp :: T := by
+  by_cases hl : l = []
+  · subst hl
+    simpa [Spec.Acc.flush] using h
+  · have : Spec.merge (Spec.Acc.flush ⟨[], l⟩ ++ qs) = prependLit l (Spec.merge qs) := by
+      simp only [Spec.Acc.flush, List.isEmpty_iff, hl, if_false, List.nil_append, Spec.merge]
+      rw [show [Piece.lit l] ++ qs = Piece.lit l :: qs by rfl, Spec.mergeGo, List.nil_append, mergeGo_prepend]
+    rw [this, h]
+    by_cases he : e = []
+    · subst he
+      simp [Spec.Acc.flush, prependLit, hl]
+    · simp [Spec.Acc.flush, prependLit, hl, he]
+
 /-! ### `parse_spec` and the nested `parse_fstring` against the reference `parts` -/
 
 /-- `fstringLoop` at nesting 1 (inside a format spec, after the first nested field) agrees with the
-    reference `parts` at level 1 -/
+    reference `parts` at level 1, up to the merging that the reference does on the fly and
+    `parse_spec` does at its end (`merge_constants`): `values` are the model's unmerged pieces -/
 def PB (lookup : List Nat → Option Nat) (kind : Kind) (n : Nat) : Prop :=
-  ∀ (values : List Piece) (content cs : List Nat) (off : Nat) (ps : List Piece) (r : List Nat) (o : Nat),
-    Spec.parts lookup true kind.isRaw n 1 true ⟨values, content⟩ cs off = some (ps, r, o) → NoSurr cs →
+  ∀ (pieces : List Piece) (content cs : List Nat) (off : Nat) (ps : List Piece) (r : List Nat) (o : Nat),
+    Spec.parts lookup true kind.isRaw n 1 true ⟨pieces, content⟩ cs off = some (ps, r, o) → NoSurr cs →
     r <:+ cs ∧ (r = [] ∨ r.head? = some 125) ∧
-    ∀ fuel, 2 * cs.length + 4 ≤ fuel → fstringLoop lookup kind fuel 1 values content cs off = .ok (ps, r, o)
+    ∀ values, Spec.merge values = pieces → EndsOk values →
+    ∀ fuel, 2 * cs.length + 4 ≤ fuel →
+      ∃ qs, fstringLoop lookup kind fuel 1 values content cs off = .ok (qs, r, o) ∧ Spec.merge qs = ps
 
 theorem model_flush (values : List Piece) (content : List Nat) :
     (if content.isEmpty then values else values ++ [Piece.lit content]) = Spec.Acc.flush ⟨values, content⟩ := rfl
+
+theorem mergeConstants_flush_nil (lit : List Nat) :
+    mergeConstants [] (Spec.Acc.flush ⟨[], lit⟩) = Spec.Acc.flush ⟨[], lit⟩ := by
+  unfold Spec.Acc.flush
+  by_cases hl : lit = []
+  · subst hl; rfl
+  · simp [mergeConstants, hl]
+
+/-- what the model's `values` become after a field, and their merge (`pcs` = the pieces
+    `parse_formatted_value` returned for a field with echo text `echo`) -/
+theorem merge_after_field (values pieces pcs : List Piece) (content echo : List Nat)
+    (ft : List Nat) (fo : Nat) (fc : Conv) (fsp : Option (List Piece))
+    (hmv : Spec.merge values = pieces) (hev : EndsOk values)
+    (hpo : PiecesOf pcs echo (Piece.field ft fo fc fsp)) :
+    Spec.merge (Spec.Acc.flush ⟨values, content⟩ ++ pcs) =
+        Spec.Acc.flush ⟨pieces, content ++ echo⟩ ++ [Piece.field ft fo fc fsp] ∧
+      EndsOk (Spec.Acc.flush ⟨values, content⟩ ++ pcs) := by
+  have hends : ∀ (L : List Piece), EndsOk (L ++ [Piece.field ft fo fc fsp]) :=
+    fun L => Or.inr ⟨L, ft, fo, fc, fsp, rfl⟩
+  rcases hpo with ⟨rfl, rfl⟩ | ⟨a, b, rfl, ha, rfl⟩
+  · refine ⟨?_, hends _⟩
+    unfold Spec.Acc.flush
+    by_cases hc : content = []
+    · subst hc
+      simp only [List.isEmpty_nil, if_true, List.append_nil]
+      rw [merge_append _ _ hev, hmv]
+      simp [Spec.merge, Spec.mergeGo]
+    · simp only [List.isEmpty_iff, hc, if_false, List.append_nil, List.append_assoc]
+      rw [merge_append _ _ hev, hmv]
+      simp [Spec.merge, Spec.mergeGo, hc]
+  · refine ⟨?_, ?_⟩
+    · have hab : a ++ b ≠ [] := by simp [ha]
+      unfold Spec.Acc.flush
+      by_cases hc : content = []
+      · subst hc
+        simp only [List.isEmpty_nil, if_true, List.nil_append, List.isEmpty_iff, hab, if_false]
+        rw [merge_append _ _ hev, hmv]
+        simp [Spec.merge, Spec.mergeGo, hab]
+      · have hcab : content ++ (a ++ b) ≠ [] := by simp [hc]
+        simp only [List.isEmpty_iff, hc, hcab, if_false, List.append_assoc]
+        rw [merge_append _ _ hev, hmv]
+        simp [Spec.merge, Spec.mergeGo, hc]
+    · have := hends (Spec.Acc.flush ⟨values, content⟩ ++ [Piece.lit a, Piece.lit b])
+      simpa using this
+
+theorem merge_piecesOf (pcs : List Piece) (echo : List Nat) (ft : List Nat) (fo : Nat) (fc : Conv)
+    (fsp : Option (List Piece)) (hpo : PiecesOf pcs echo (Piece.field ft fo fc fsp)) :
+    Spec.merge pcs = Spec.Acc.flush ⟨[], echo⟩ ++ [Piece.field ft fo fc fsp] ∧ EndsOk pcs := by
+  have := merge_after_field [] [] pcs [] echo ft fo fc fsp (by simp [Spec.merge, Spec.mergeGo]) (Or.inl rfl) hpo
+  simpa [Spec.Acc.flush] using this
 
 theorem PA_step (lookup : List Nat → Option Nat) (hl : LookupOk lookup) (kind : Kind)
     (hk : kind.isAnyBytes = false) (n : Nat)
@@ -266,7 +421,7 @@ theorem PA_step (lookup : List Nat → Option Nat) (hl : LookupOk lookup) (kind 
     match fuel, hf with
     | f + 1, _ =>
       conv => lhs; unfold specLoop
-      simp [Spec.Acc.flush]
+      simp only [model_flush, mergeConstants_flush_nil]
   | cons c cs =>
     unfold Spec.parts at h
     simp only at h
@@ -315,9 +470,7 @@ theorem PA_step (lookup : List Nat → Option Nat) (hl : LookupOk lookup) (kind 
         | some p =>
           obtain ⟨echo, f, rest, off'⟩ := p
           simp only [hfld] at h
-          obtain ⟨hsuf, hlen, hecho, _, hm⟩ := hF (nested + 1) cs (off + 1) echo f rest off' hfld hns'
-          have hecho' : echo = [] := hecho (by omega)
-          subst hecho'
+          obtain ⟨hsuf, hlen, ⟨ft, fo, fc, fsp, rfl⟩, hm⟩ := hF (nested + 1) cs (off + 1) echo _ rest off' hfld hns'
           -- the reference field exists only at level 1
           have hn0 : nested = 0 := by
             cases n with
@@ -328,42 +481,69 @@ theorem PA_step (lookup : List Nat → Option Nat) (hl : LookupOk lookup) (kind 
               · simp [hl] at hfld
               · omega
           subst hn0
-          simp only [List.append_nil] at h
-          rw [show (Spec.Acc.flush ⟨[], lit⟩ ++ [f]) = Spec.Acc.flush ⟨[], lit⟩ ++ ([f] ++ []) by simp] at h
-          rw [parts_prefix] at h
+          -- peel the literal text in front of the field off the reference run
+          have hpre : Spec.Acc.flush ⟨([] : List Piece), lit ++ echo⟩ ++ [Piece.field ft fo fc fsp] =
+              Spec.Acc.flush ⟨[], lit ++ echo⟩ ++ ([Piece.field ft fo fc fsp] ++ []) := by simp
+          rw [hpre, parts_prefix] at h
           simp only [List.append_nil, Nat.zero_add] at h
-          cases hp : Spec.parts lookup true kind.isRaw n 1 true ⟨[f], []⟩ rest off' with
+          cases hp : Spec.parts lookup true kind.isRaw n 1 true ⟨[Piece.field ft fo fc fsp], []⟩ rest off' with
           | none => simp [hp, addPrefix] at h
           | some q =>
             obtain ⟨ps', r', o'⟩ := q
             simp only [hp, addPrefix, Option.some.injEq, Prod.mk.injEq] at h
             obtain ⟨rfl, rfl, rfl⟩ := h
-            obtain ⟨hsuf2, hend, hm2⟩ := hB [f] [] rest off' ps' r' o' hp (hns'.suffix hsuf)
-            refine ⟨(hsuf2.trans hsuf).trans (List.suffix_cons _ _), ?_⟩
-            intro fuel hf
-            simp only [List.length_cons] at hf
-            have hl2 := hsuf2.length_le
-            match fuel, hf with
-            | f1 + 2, hf =>
-              obtain ⟨pcs, hfv, hpo⟩ := hm f1 (by omega)
-              have hpcs : pcs = [f] := by
-                rcases hpo with ⟨_, e⟩ | ⟨a, b, e, ha, _⟩
-                · exact e
-                · exact absurd (List.append_eq_nil_iff.mp e.symm).1 ha
-              subst hpcs
-              have hfs : fstringLoop lookup kind (f1 + 1) 1 [] [] (123 :: cs) off = .ok (ps', r', o') := by
-                conv => lhs; unfold fstringLoop
-                simp [hfv]
-                exact hm2 f1 (by omega)
-              conv => lhs; unfold specLoop
-              simp only [if_true, hfs]
-              rcases hend with rfl | h125
-              · conv => lhs; unfold specLoop
-                simp [Spec.Acc.flush]
-              · match r', h125 with
-                | 125 :: r'', _ =>
+            -- ... and the field itself off the run after it
+            have hp1 := hp
+            rw [show ([Piece.field ft fo fc fsp] : List Piece) = [Piece.field ft fo fc fsp] ++ [] by simp,
+              parts_prefix] at hp1
+            cases hp0 : Spec.parts lookup true kind.isRaw n 1 true ⟨[], []⟩ rest off' with
+            | none => simp [hp0, addPrefix] at hp1
+            | some q0 =>
+              obtain ⟨T, r0, o0⟩ := q0
+              simp only [hp0, addPrefix, Option.some.injEq, Prod.mk.injEq] at hp1
+              obtain ⟨rfl, rfl, rfl⟩ := hp1
+              refine ⟨?_, ?_⟩
+              · obtain ⟨hsuf2, _, _⟩ := hB [Piece.field ft fo fc fsp] [] rest off' _ _ _ hp (hns'.suffix hsuf)
+                exact (hsuf2.trans hsuf).trans (List.suffix_cons _ _)
+              · intro fuel hf
+                simp only [List.length_cons] at hf
+                match fuel, hf with
+                | f1 + 2, hf =>
+                  obtain ⟨pcs, hfv, hpo⟩ := hm f1 (by omega)
+                  obtain ⟨hmp, hep⟩ := merge_piecesOf pcs echo ft fo fc fsp hpo
+                  -- the reference run on the merged pieces of the field
+                  have hrun : Spec.parts lookup true kind.isRaw n 1 true ⟨Spec.merge pcs, []⟩ rest off' =
+                      some (Spec.Acc.flush ⟨[], echo⟩ ++ ([Piece.field ft fo fc fsp] ++ T), r0, o0) := by
+                    rw [hmp, show Spec.Acc.flush ⟨([] : List Piece), echo⟩ ++ [Piece.field ft fo fc fsp] =
+                      Spec.Acc.flush ⟨[], echo⟩ ++ ([Piece.field ft fo fc fsp] ++ []) by simp, parts_prefix]
+                    simp only [List.append_nil]
+                    rw [hp]
+                    simp [addPrefix]
+                  obtain ⟨hsuf2, hend, hm2⟩ := hB (Spec.merge pcs) [] rest off' _ _ _ hrun (hns'.suffix hsuf)
+                  have hl2 := hsuf2.length_le
+                  have hl1 := hsuf.length_le
+                  obtain ⟨qs, hq, hmq⟩ := hm2 pcs rfl hep f1 (by omega)
+                  have hfs : fstringLoop lookup kind (f1 + 1) 1 [] [] (123 :: cs) off = .ok (qs, r0, o0) := by
+                    conv => lhs; unfold fstringLoop
+                    simp [hfv]
+                    exact hq
+                  have hfin : mergeConstants [] (Spec.Acc.flush ⟨Spec.Acc.flush ⟨[], lit⟩ ++ qs, []⟩) =
+                      Spec.Acc.flush ⟨[], lit ++ echo⟩ ++ ([Piece.field ft fo fc fsp] ++ T) := by
+                    rw [mergeConstants_eq]
+                    have : Spec.Acc.flush ⟨Spec.Acc.flush ⟨([] : List Piece), lit⟩ ++ qs, []⟩ =
+                        Spec.Acc.flush ⟨[], lit⟩ ++ qs := by simp [Spec.Acc.flush]
+                    rw [this]
+                    exact merge_lit_prefix lit echo qs ft fo fc fsp T (by simpa using hmq)
                   conv => lhs; unfold specLoop
-                  simp [Spec.Acc.flush]
+                  simp only [if_true, hfs]
+                  rcases hend with rfl | h125
+                  · conv => lhs; unfold specLoop
+                    simp only [model_flush, hfin]
+                  · match r0, h125 with
+                    | 125 :: r'', _ =>
+                      conv => lhs; unfold specLoop
+                      simp only [model_flush]
+                      simp [hfin]
       · simp only [h123, if_false] at h
         by_cases h125 : c = 125
         · subst h125
@@ -374,7 +554,8 @@ theorem PA_step (lookup : List Nat → Option Nat) (hl : LookupOk lookup) (kind 
           match fuel, hf with
           | f + 1, _ =>
             conv => lhs; unfold specLoop
-            simp [Spec.Acc.flush]
+            simp only [model_flush, mergeConstants_flush_nil]
+            simp
         · simp only [h125, if_false] at h
           obtain ⟨hsuf, hm⟩ := hA nested (lit ++ [c]) cs (off + Spec.usize c) ps r o h hns'
           refine ⟨hsuf.trans (List.suffix_cons _ _), ?_⟩
@@ -389,17 +570,19 @@ theorem PA_step (lookup : List Nat → Option Nat) (hl : LookupOk lookup) (kind 
 theorem PB_step (lookup : List Nat → Option Nat) (hl : LookupOk lookup) (kind : Kind)
     (hk : kind.isAnyBytes = false) (n : Nat)
     (hF : PF lookup kind n) (hB : PB lookup kind n) : PB lookup kind (n + 1) := by
-  intro values content cs off ps r o h hns
+  intro pieces content cs off ps r o h hns
   cases cs with
   | nil =>
     simp [Spec.parts] at h
     obtain ⟨rfl, rfl, rfl⟩ := h
     refine ⟨List.suffix_refl _, Or.inl rfl, ?_⟩
-    intro fuel hf
+    intro values hmv hev fuel hf
     match fuel, hf with
     | f + 1, _ =>
-      conv => lhs; unfold fstringLoop
-      simp [Spec.Acc.flush]
+      refine ⟨Spec.Acc.flush ⟨values, content⟩, ?_, ?_⟩
+      · conv => lhs; unfold fstringLoop
+        simp [Spec.Acc.flush]
+      · rw [merge_flush _ _ hev, hmv]
   | cons c cs =>
     unfold Spec.parts at h
     simp only at h
@@ -409,15 +592,17 @@ theorem PB_step (lookup : List Nat → Option Nat) (hl : LookupOk lookup) (kind 
       rw [if_pos ⟨rfl, hraw⟩] at h
       by_cases hbr : cs.head? = some 123 ∨ cs.head? = some 125
       · simp only [hbr, if_true] at h
-        obtain ⟨hsuf, hend, hm⟩ := hB values (content ++ [92]) cs (off + 1) ps r o h hns'
+        obtain ⟨hsuf, hend, hm⟩ := hB pieces (content ++ [92]) cs (off + 1) ps r o h hns'
         refine ⟨hsuf.trans (List.suffix_cons _ _), hend, ?_⟩
-        intro fuel hf
+        intro values hmv hev fuel hf
         simp only [List.length_cons] at hf
         match fuel, hf with
         | f + 1, hf =>
+          obtain ⟨qs, e, hq⟩ := hm values hmv hev f (by omega)
+          refine ⟨qs, ?_, hq⟩
           conv => lhs; unfold fstringLoop
           simp [hraw, hbr]
-          exact hm f (by omega)
+          exact e
       · simp only [hbr, if_false] at h
         cases hesc : PV.C06.Spec.escape lookup false cs with
         | none => simp [hesc] at h
@@ -425,15 +610,17 @@ theorem PB_step (lookup : List Nat → Option Nat) (hl : LookupOk lookup) (kind 
           obtain ⟨items, rest⟩ := p
           simp only [hesc] at h
           obtain ⟨hpe, hsuf1, hlen1⟩ := escape_lit lookup hl kind hk cs hns' (off + 1) items rest hesc
-          obtain ⟨hsuf, hend, hm⟩ := hB values (content ++ items.map PV.C06.Spec.fffd) rest _ ps r o h (hns'.suffix hsuf1)
+          obtain ⟨hsuf, hend, hm⟩ := hB pieces (content ++ items.map PV.C06.Spec.fffd) rest _ ps r o h (hns'.suffix hsuf1)
           refine ⟨(hsuf.trans hsuf1).trans (List.suffix_cons _ _), hend, ?_⟩
-          intro fuel hf
+          intro values hmv hev fuel hf
           simp only [List.length_cons] at hf
           match fuel, hf with
           | f + 1, hf =>
+            obtain ⟨qs, e, hq⟩ := hm values hmv hev f (by omega)
+            refine ⟨qs, ?_, hq⟩
             conv => lhs; unfold fstringLoop
             simp [hraw, hbr, hpe]
-            exact hm f (by omega)
+            exact e
     · simp only [h92, if_false] at h
       have h92' : ¬ (c = 92 ∧ ¬ kind.isRaw = true) := h92
       by_cases h123 : c = 123
@@ -446,48 +633,46 @@ theorem PB_step (lookup : List Nat → Option Nat) (hl : LookupOk lookup) (kind 
         | some p =>
           obtain ⟨echo, f, rest, off'⟩ := p
           simp only [hfld] at h
-          obtain ⟨hsuf1, hlen, hecho, _, hm1⟩ := hF 1 cs (off + 1) echo f rest off' hfld hns'
-          have hecho' : echo = [] := hecho (by omega)
-          subst hecho'
-          simp only [List.append_nil] at h
+          obtain ⟨hsuf1, hlen, ⟨ft, fo, fc, fsp, rfl⟩, hm1⟩ := hF 1 cs (off + 1) echo _ rest off' hfld hns'
           obtain ⟨hsuf, hend, hm⟩ := hB _ [] rest off' ps r o h (hns'.suffix hsuf1)
           refine ⟨(hsuf.trans hsuf1).trans (List.suffix_cons _ _), hend, ?_⟩
-          intro fuel hf
+          intro values hmv hev fuel hf
           simp only [List.length_cons] at hf
           match fuel, hf with
           | f1 + 1, hf =>
             obtain ⟨pcs, hfv, hpo⟩ := hm1 f1 (by omega)
-            have hpcs : pcs = [f] := by
-              rcases hpo with ⟨_, e⟩ | ⟨a, b, e, ha, _⟩
-              · exact e
-              · exact absurd (List.append_eq_nil_iff.mp e.symm).1 ha
-            subst hpcs
             have hl1 := hsuf1.length_le
+            have key := merge_after_field values pieces pcs content echo ft fo fc fsp hmv hev hpo
+            obtain ⟨qs, e, hq⟩ := hm _ key.1 key.2 f1 (by omega)
+            refine ⟨qs, ?_, hq⟩
             conv => lhs; unfold fstringLoop
             simp [hfv]
-            have := hm f1 (by omega)
-            simpa [Spec.Acc.flush] using this
+            simpa [Spec.Acc.flush] using e
       · simp only [h123, if_false] at h
         by_cases h125 : c = 125
         · subst h125
           simp at h
           obtain ⟨rfl, rfl, rfl⟩ := h
           refine ⟨List.suffix_refl _, Or.inr rfl, ?_⟩
-          intro fuel hf
+          intro values hmv hev fuel hf
           match fuel, hf with
           | f + 1, _ =>
-            conv => lhs; unfold fstringLoop
-            simp [Spec.Acc.flush]
+            refine ⟨Spec.Acc.flush ⟨values, content⟩, ?_, ?_⟩
+            · conv => lhs; unfold fstringLoop
+              simp [Spec.Acc.flush]
+            · rw [merge_flush _ _ hev, hmv]
         · simp only [h125, if_false] at h
-          obtain ⟨hsuf, hend, hm⟩ := hB values (content ++ [c]) cs (off + Spec.usize c) ps r o h hns'
+          obtain ⟨hsuf, hend, hm⟩ := hB pieces (content ++ [c]) cs (off + Spec.usize c) ps r o h hns'
           refine ⟨hsuf.trans (List.suffix_cons _ _), hend, ?_⟩
-          intro fuel hf
+          intro values hmv hev fuel hf
           simp only [List.length_cons] at hf
           match fuel, hf with
           | f + 1, hf =>
+            obtain ⟨qs, e, hq⟩ := hm values hmv hev f (by omega)
+            refine ⟨qs, ?_, hq⟩
             conv => lhs; unfold fstringLoop
             simp only [h123, h125, h92', if_false]
             simp
-            exact hm f (by omega)
+            exact e
 
 end PV.C07
